@@ -212,5 +212,41 @@ class Session:
                 sim=[int(bool(t.rf_muted)), int(bool(t.fake_rssi_enabled)), t.tx_power_base, t.tx_att_base, t.toa256_base, t.toa256_rand_threshold,
                      t.rssi_base, t.rssi_rand_threshold, t.ci_base, t.ci_rand_threshold, t.ta, t.burst_drop_amount, t.burst_drop_period,
                      t.ctrl_if.rsp_delay_ms]))
-        links = [k for l in self.app.clck_gen.clck_links for k, t in enumerate(self.trxs) if getattr(t, "clck_if", None) is l]
-        return out, links, bool(self.app.clck_gen.running)
+        return out, self.clock_targets(), bool(self.app.clck_gen.running)
+
+    def clock_targets(self):
+        """which transceivers a clock indication reaches right now, in sending order: observed by letting the real
+        send_clck_ind() emit one indication for frame 0 (counter and handler restored afterwards), not read from a list"""
+        gen = self.app.clck_gen
+        socks = {}
+        for k, t in enumerate(self.trxs):
+            ci = getattr(t, "clck_if", None)
+            if ci is not None:
+                socks[ci.sock] = k
+                ci.sock.sent.clear()
+        order = []
+        FS = self.FS
+        orig = FS.sendto
+
+        def sendto(sock, data, remote, _orig=orig):
+            if sock in socks:
+                order.append(socks[sock])
+            return _orig(sock, data, remote)
+        saved = (getattr(gen, "clck_src", None), gen.clck_handler)
+        FS.sendto = sendto
+        try:
+            gen.clck_src, gen.clck_handler = 0, None
+            gen.send_clck_ind()
+        finally:
+            FS.sendto = orig
+            gen.clck_handler = saved[1]
+            if saved[0] is None:
+                try:
+                    del gen.clck_src
+                except AttributeError:
+                    pass
+            else:
+                gen.clck_src = saved[0]
+            for sk in socks:
+                sk.sent.clear()
+        return order
